@@ -20,6 +20,39 @@ func schedStaleWorkerRemoval(c *Ctx) *RuleResult {
 	workers := p.LookupField(schedPkg, "sizeClassQueue", "workers")
 	qKey := p.LookupField(schedPkg, "sizeClassQueue", "cleanupKey")
 	add := p.LookupFunc(schedPkg, "cleanupQueue.add")
+	// arming sites: add(&queue.cleanupKey, deadline, ...) with the emptiness test that guards them
+	type arming struct {
+		u    *FuncUnit
+		call *ast.CallExpr
+		test ast.Node
+	}
+	var armings []arming
+	armers := map[*types.Func]bool{}
+	for _, u := range units {
+		info := u.Info()
+		for _, cs := range CallsTo([]*FuncUnit{u}, add) {
+			call := cs.Node.(*ast.CallExpr)
+			if len(call.Args) != 3 {
+				continue
+			}
+			ue, ok := ast.Unparen(call.Args[0]).(*ast.UnaryExpr)
+			if !ok || fieldOf(info, ue.X) != qKey {
+				continue
+			}
+			var test ast.Node
+			for _, gd := range flattenGuards(GuardsOf(info, u.Decl.Body, call)) {
+				ast.Inspect(gd.Cond, func(n ast.Node) bool {
+					if e, ok := n.(ast.Expr); ok && fieldOf(info, e) == workers {
+						test = origOf(gd.Cond)
+					}
+					return true
+				})
+			}
+			armings = append(armings, arming{u, call, test})
+			armers[u.Fn] = true
+		}
+	}
+	// (a) the deletion precedes the test -- locally, or the call of the helper that tests and arms
 	for _, u := range units {
 		info := u.Info()
 		var del ast.Node
@@ -32,68 +65,79 @@ func schedStaleWorkerRemoval(c *Ctx) *RuleResult {
 			continue
 		}
 		g := NewFuncCFG(info, u.Decl.Body)
-		for _, cs := range CallsTo([]*FuncUnit{u}, add) {
-			call := cs.Node.(*ast.CallExpr)
-			if len(call.Args) != 3 {
-				continue
+		var tests []ast.Node
+		for _, a := range armings {
+			if a.u.Fn == u.Fn && a.test != nil {
+				tests = append(tests, a.test)
 			}
-			ue, ok := ast.Unparen(call.Args[0]).(*ast.UnaryExpr)
-			if !ok || fieldOf(info, ue.X) != qKey {
-				continue
+		}
+		// an emptiness test in this function that guards a call of an arming helper
+		ast.Inspect(u.Decl.Body, func(n ast.Node) bool {
+			call, ok := n.(*ast.CallExpr)
+			if !ok || !armers[calleeOf(info, call)] {
+				return true
 			}
-			// the len(workers) == 0 test guarding the arming
-			var test ast.Node
 			for _, gd := range flattenGuards(GuardsOf(info, u.Decl.Body, call)) {
-				ast.Inspect(gd.Cond, func(n ast.Node) bool {
-					if e, ok := n.(ast.Expr); ok && fieldOf(info, e) == workers {
-						test = origOf(gd.Cond)
+				ast.Inspect(gd.Cond, func(m ast.Node) bool {
+					if e, ok := m.(ast.Expr); ok && fieldOf(info, e) == workers {
+						tests = append(tests, origOf(gd.Cond))
 					}
 					return true
 				})
 			}
-			construct := constructOf(u, "emptiness test after deletion")
-			if test == nil {
-				continue
+			return true
+		})
+		ast.Inspect(u.Decl.Body, func(n ast.Node) bool {
+			if call, ok := n.(*ast.CallExpr); ok && armers[calleeOf(info, call)] && calleeOf(info, call) != u.Fn {
+				tests = append(tests, call)
 			}
+			return true
+		})
+		for _, test := range tests {
+			construct := constructOf(u, "emptiness test after deletion")
 			if g.Dominates(del, test) {
 				r.ok(construct, posOf(p, del), "the worker is deleted before the queue is tested for emptiness")
 			} else {
 				r.bad(c.Prop, construct, posOf(p, del), "the queue is tested for emptiness while the disappearing worker is still registered: the test never holds, the queue is never removed and clients blocked on it are never failed")
 			}
-			// the deadline
-			sig := u.Fn.Type().(*types.Signature)
-			var tparam *types.Var
-			for i := 0; i < sig.Params().Len(); i++ {
-				if namedIs(sig.Params().At(i).Type(), "time", "Time") {
-					tparam = sig.Params().At(i)
-				}
+		}
+	}
+	// (b) the deadline
+	for _, a := range armings {
+		u, call := a.u, a.call
+		info := u.Info()
+		sig := u.Fn.Type().(*types.Signature)
+		var tparam *types.Var
+		for i := 0; i < sig.Params().Len(); i++ {
+			if namedIs(sig.Params().At(i).Type(), "time", "Time") {
+				tparam = sig.Params().At(i)
 			}
-			if tparam == nil {
-				continue
+		}
+		if tparam == nil {
+			continue
+		}
+		construct := constructOf(u, "removal deadline")
+		uses := false
+		ast.Inspect(call.Args[1], func(n ast.Node) bool {
+			if id, ok := n.(*ast.Ident); ok && info.Uses[id] == tparam {
+				uses = true
 			}
-			construct = constructOf(u, "removal deadline")
-			uses := false
-			ast.Inspect(call.Args[1], func(n ast.Node) bool {
-				if id, ok := n.(*ast.Ident); ok && info.Uses[id] == tparam {
-					uses = true
-				}
-				return true
-			})
-			if !uses {
-				if id, ok := ast.Unparen(call.Args[1]).(*ast.Ident); ok {
-					ast.Inspect(resolveLocalAlias(u, id), func(n ast.Node) bool {
-						if x, ok := n.(*ast.Ident); ok && info.Uses[x] == tparam {
-							uses = true
-						}
-						return true
-					})
-				}
+			return true
+		})
+		if !uses {
+			if id, ok := ast.Unparen(call.Args[1]).(*ast.Ident); ok {
+				ast.Inspect(resolveLocalAlias(u, id), func(n ast.Node) bool {
+					if x, ok := n.(*ast.Ident); ok && info.Uses[x] == tparam {
+						uses = true
+					}
+					return true
+				})
 			}
-			if uses {
-				r.ok(construct, posOf(p, call), "counted from "+tparam.Name())
-			} else {
-				r.bad(c.Prop, construct, posOf(p, call), "the queue's removal deadline is not computed from the removal time the function is given ("+tparam.Name()+"): on a quiet scheduler the queue outlives its timeout and blocked clients are not failed in time")
-			}
+		}
+		if uses {
+			r.ok(construct, posOf(p, call), "counted from "+tparam.Name())
+		} else {
+			r.bad(c.Prop, construct, posOf(p, call), "the queue's removal deadline is not computed from the removal time the function is given ("+tparam.Name()+"): on a quiet scheduler the queue outlives its timeout and blocked clients are not failed in time")
 		}
 	}
 	return r
@@ -196,70 +240,85 @@ func c07QueueOnce(c *Ctx) *RuleResult {
 
 // c09ExecuteUploadErrors: a failed upload of stdout/stderr is reported.
 func c09ExecuteUploadErrors(c *Ctx) *RuleResult {
-	r := &RuleResult{Rule: "C09.log-upload-errors", Floor: 2,
+	r := &RuleResult{Rule: "C09.log-upload-errors", Floor: 1,
 		Doc: "if any storage write fails the response carries an error: in localBuildExecutor.Execute the error of EVERY UploadFile call (stdout, stderr) reaches attachErrorToExecuteResponse on the branch where it is non-nil"}
 	p := c.P
-	u := p.Unit(builderPkg, "localBuildExecutor.Execute")
-	info := u.Info()
+	u0 := p.Unit(builderPkg, "localBuildExecutor.Execute")
 	attach := p.LookupFunc(builderPkg, "attachErrorToExecuteResponse")
-	ast.Inspect(u.Decl.Body, func(n ast.Node) bool {
-		as, ok := n.(*ast.AssignStmt)
-		if !ok || len(as.Rhs) != 1 || len(as.Lhs) != 2 {
-			return true
-		}
-		call, ok := ast.Unparen(as.Rhs[0]).(*ast.CallExpr)
-		if !ok {
-			return true
-		}
-		sel, ok := ast.Unparen(call.Fun).(*ast.SelectorExpr)
-		if !ok || sel.Sel.Name != "UploadFile" {
-			return true
-		}
-		eid, ok := as.Lhs[1].(*ast.Ident)
-		if !ok {
-			return true
-		}
-		eobj := info.ObjectOf(eid)
-		construct := constructOf(u, "UploadFile("+exprStr(call.Args[1])+") error reported")
-		okA := false
-		for _, cs := range CallsTo([]*FuncUnit{u}, attach) {
-			ac := cs.Node.(*ast.CallExpr)
-			if ac.Pos() < call.Pos() {
-				continue
+	// the executor itself and the helpers that attach errors to the response on its behalf
+	cands := []*FuncUnit{u0}
+	for _, cs := range CallsTo(p.UnitsIn(builderPkg), attach) {
+		dup := false
+		for _, x := range cands {
+			if x.Fn == cs.Unit.Fn {
+				dup = true
 			}
-			mentions := false
-			ast.Inspect(ac, func(m ast.Node) bool {
-				if id, ok := m.(*ast.Ident); ok && info.ObjectOf(id) == eobj {
-					mentions = true
-				}
+		}
+		if !dup {
+			cands = append(cands, cs.Unit)
+		}
+	}
+	for _, u := range cands {
+		info := u.Info()
+		ast.Inspect(u.Decl.Body, func(n ast.Node) bool {
+			as, ok := n.(*ast.AssignStmt)
+			if !ok || len(as.Rhs) != 1 || len(as.Lhs) != 2 {
 				return true
-			})
-			if !mentions {
-				continue
 			}
-			// the variable must still hold THIS call's error: no other assignment in between
-			clobbered := false
-			ast.Inspect(u.Decl.Body, func(m ast.Node) bool {
-				if o, ok := m.(*ast.AssignStmt); ok && o != as && o.Pos() > as.Pos() && o.Pos() < ac.Pos() {
-					for _, l := range o.Lhs {
-						if lid, ok := l.(*ast.Ident); ok && info.ObjectOf(lid) == eobj {
-							clobbered = true
+			call, ok := ast.Unparen(as.Rhs[0]).(*ast.CallExpr)
+			if !ok {
+				return true
+			}
+			sel, ok := ast.Unparen(call.Fun).(*ast.SelectorExpr)
+			if !ok || sel.Sel.Name != "UploadFile" {
+				return true
+			}
+			eid, ok := as.Lhs[1].(*ast.Ident)
+			if !ok {
+				return true
+			}
+			eobj := info.ObjectOf(eid)
+			construct := constructOf(u, "UploadFile("+exprStr(call.Args[1])+") error reported")
+			okA := false
+			for _, cs := range CallsTo([]*FuncUnit{u}, attach) {
+				ac := cs.Node.(*ast.CallExpr)
+				if ac.Pos() < call.Pos() {
+					continue
+				}
+				mentions := false
+				ast.Inspect(ac, func(m ast.Node) bool {
+					if id, ok := m.(*ast.Ident); ok && info.ObjectOf(id) == eobj {
+						mentions = true
+					}
+					return true
+				})
+				if !mentions {
+					continue
+				}
+				// the variable must still hold THIS call's error: no other assignment in between
+				clobbered := false
+				ast.Inspect(u.Decl.Body, func(m ast.Node) bool {
+					if o, ok := m.(*ast.AssignStmt); ok && o != as && o.Pos() > as.Pos() && o.Pos() < ac.Pos() {
+						for _, l := range o.Lhs {
+							if lid, ok := l.(*ast.Ident); ok && info.ObjectOf(lid) == eobj {
+								clobbered = true
+							}
 						}
 					}
+					return true
+				})
+				if !clobbered {
+					okA = true
 				}
-				return true
-			})
-			if !clobbered {
-				okA = true
 			}
-		}
-		if okA {
-			r.ok(construct, posOf(p, call), "attached to the response when non-nil")
-		} else {
-			r.bad(c.Prop, construct, posOf(p, call), "the error of this upload never reaches the response: a failed write of the command's output leaves the response OK and the incomplete result is cached")
-		}
-		return true
-	})
+			if okA {
+				r.ok(construct, posOf(p, call), "attached to the response when non-nil")
+			} else {
+				r.bad(c.Prop, construct, posOf(p, call), "the error of this upload never reaches the response: a failed write of the command's output leaves the response OK and the incomplete result is cached")
+			}
+			return true
+		})
+	}
 	return r
 }
 
@@ -309,14 +368,25 @@ func c12ChainKeepsFirstError(c *Ctx) *RuleResult {
 	p := c.P
 	u := p.Unit("pkg/cleaner", "NewChainedCleaner")
 	info := u.Info()
-	// the accumulator: the error variable returned by the closure
+	// the accumulator: the error variable (or field of a recorder object) returned by the closure
+	objOf := func(x *FuncUnit, e ast.Expr) types.Object {
+		switch y := ast.Unparen(e).(type) {
+		case *ast.Ident:
+			return x.Info().ObjectOf(y)
+		case *ast.SelectorExpr:
+			if f := fieldOf(x.Info(), y); f != nil {
+				return f
+			}
+		}
+		return nil
+	}
 	var acc types.Object
 	ast.Inspect(u.Decl.Body, func(n ast.Node) bool {
 		if fl, ok := n.(*ast.FuncLit); ok {
 			ast.Inspect(fl.Body, func(m ast.Node) bool {
 				if ret, ok := m.(*ast.ReturnStmt); ok && len(ret.Results) == 1 && enclosingFuncLit(u.Decl.Body, ret) == fl {
-					if id, ok := ast.Unparen(ret.Results[0]).(*ast.Ident); ok {
-						acc = info.ObjectOf(id)
+					if o := objOf(u, ret.Results[0]); o != nil {
+						acc = o
 					}
 				}
 				return true
@@ -324,34 +394,32 @@ func c12ChainKeepsFirstError(c *Ctx) *RuleResult {
 		}
 		return true
 	})
+	_ = info
 	if acc == nil {
 		panic(anchorError("NewChainedCleaner: accumulated error variable"))
 	}
-	ast.Inspect(u.Decl.Body, func(n ast.Node) bool {
-		as, ok := n.(*ast.AssignStmt)
-		if !ok || as.Tok != token.ASSIGN || len(as.Lhs) != 1 {
-			return true
-		}
-		id, ok := as.Lhs[0].(*ast.Ident)
-		if !ok || info.ObjectOf(id) != acc {
-			return true
-		}
-		construct := constructOf(u, "accumulated error store")
-		okG := false
-		for _, g := range flattenGuards(GuardsOf(info, u.Decl.Body, as)) {
-			if x, nonNil, ok := nilTestOf(g); ok && !nonNil {
-				if xid, ok := ast.Unparen(x).(*ast.Ident); ok && info.ObjectOf(xid) == acc {
+	for _, x := range p.UnitsIn("pkg/cleaner") {
+		xinfo := x.Info()
+		ast.Inspect(x.Decl.Body, func(n ast.Node) bool {
+			as, ok := n.(*ast.AssignStmt)
+			if !ok || as.Tok != token.ASSIGN || len(as.Lhs) != 1 || objOf(x, as.Lhs[0]) != acc {
+				return true
+			}
+			construct := constructOf(x, "accumulated error store")
+			okG := false
+			for _, g := range flattenGuards(GuardsOf(xinfo, x.Decl.Body, as)) {
+				if y, nonNil, ok := nilTestOf(g); ok && !nonNil && objOf(x, y) == acc {
 					okG = true
 				}
 			}
-		}
-		if okG {
-			r.ok(construct, posOf(p, as), "only while no error was recorded yet")
-		} else {
-			r.bad(c.Prop, construct, posOf(p, as), "the accumulated error can be overwritten after a failure was recorded: a cleaner that succeeds after one that failed resets the error, and the action starts although cleaning failed")
-		}
-		return true
-	})
+			if okG {
+				r.ok(construct, posOf(p, as), "only while no error was recorded yet")
+			} else {
+				r.bad(c.Prop, construct, posOf(p, as), "the accumulated error can be overwritten after a failure was recorded: a cleaner that succeeds after one that failed resets the error, and the action starts although cleaning failed")
+			}
+			return true
+		})
+	}
 	return r
 }
 
@@ -361,29 +429,49 @@ func c13HiddenOnlyLeaves(c *Ctx) *RuleResult {
 		Doc: "worker-facing and kernel-facing calls agree on what a directory contains: in the methods of the in-memory directory that list entries (ReadDir), the hidden-files matcher is only consulted for entries that are not directories (under the failed `directory != nil` test), as the emptiness check and the kernel-facing listing do"}
 	p := c.P
 	hm := p.LookupField(virtualPkg, "inMemoryFilesystem", "hiddenFilesMatcher")
-	u := p.Unit(virtualPkg, "inMemoryPrepopulatedDirectory.ReadDir")
-	info := u.Info()
-	ast.Inspect(u.Decl.Body, func(n ast.Node) bool {
-		call, ok := n.(*ast.CallExpr)
-		if !ok || fieldOf(info, call.Fun) != hm {
-			return true
+	u0 := p.Unit(virtualPkg, "inMemoryPrepopulatedDirectory.ReadDir")
+	cands := []*FuncUnit{u0}
+	for fn := range staticReach(p, []ast.Node{u0.Decl.Body}, u0.Info()) {
+		if hu := p.UnitOf(fn); hu != nil && fn.Pkg() == u0.Fn.Pkg() && hu.Fn.Name() != "isDeletable" {
+			cands = append(cands, hu)
 		}
-		construct := constructOf(u, "hidden-files matcher")
-		okG := false
-		for _, g := range flattenGuards(GuardsOf(info, u.Decl.Body, call)) {
-			if x, nonNil, ok := nilTestOf(g); ok && !nonNil {
-				if tv, ok := info.Types[x]; ok && strings.Contains(tv.Type.String(), "Directory") {
-					okG = true
+	}
+	for _, u := range cands {
+		info := u.Info()
+		ast.Inspect(u.Decl.Body, func(n ast.Node) bool {
+			call, ok := n.(*ast.CallExpr)
+			if !ok {
+				return true
+			}
+			if fieldOf(info, call.Fun) != hm {
+				// ... or the matcher handed down as a function value
+				tv, ok := info.Types[call.Fun]
+				if !ok || !namedIs(tv.Type, modPath+"/"+virtualPkg, "StringMatcher") {
+					return true
 				}
 			}
-		}
-		if okG {
-			r.ok(construct, posOf(p, call), "only for non-directories")
-		} else {
-			r.bad(c.Prop, construct, posOf(p, call), "directories whose name matches the hidden-files pattern disappear from the worker-facing listing while lookups, rmdir's emptiness check and the kernel-facing listing still see them")
-		}
-		return true
-	})
+			construct := constructOf(u, "hidden-files matcher")
+			okG := false
+			for _, g := range flattenGuards(GuardsOf(info, u.Decl.Body, call)) {
+				if x, nonNil, ok := nilTestOf(g); ok {
+					if tv, ok := info.Types[x]; ok {
+						if !nonNil && strings.Contains(tv.Type.String(), "Directory") {
+							okG = true // not a directory
+						}
+						if nonNil && strings.Contains(tv.Type.String(), "Leaf") {
+							okG = true // a leaf
+						}
+					}
+				}
+			}
+			if okG {
+				r.ok(construct, posOf(p, call), "only for non-directories")
+			} else {
+				r.bad(c.Prop, construct, posOf(p, call), "directories whose name matches the hidden-files pattern disappear from the worker-facing listing while lookups, rmdir's emptiness check and the kernel-facing listing still see them")
+			}
+			return true
+		})
+	}
 	return r
 }
 
@@ -418,22 +506,23 @@ func c15PoolRules(c *Ctx) *RuleResult {
 	cu := p.Unit(poolPkg, "blockDeviceBackedFile.Close")
 	cinfo := cu.Info()
 	sectors := p.LookupField(poolPkg, "blockDeviceBackedFile", "sectors")
-	g := NewFuncCFG(cinfo, cu.Decl.Body)
+	_ = cinfo
 	construct := constructOf(cu, "sectors released on every path")
-	// every returning path passes the test of len(sectors) (whose true branch frees them) or a free call
-	if g.EveryPathPasses(func(m ast.Node) bool {
+	// every returning path passes the test of len(sectors) (whose true branch frees them) or a free
+	// call -- directly or in a helper all of whose paths do
+	if mustPass(p.UnitsIn(poolPkg), func(x *FuncUnit, m ast.Node) bool {
 		call, ok := m.(*ast.CallExpr)
 		if !ok {
 			return false
 		}
 		// len(f.sectors) in the guarding test, or FreeList(f.sectors)
 		for _, a := range call.Args {
-			if fieldOf(cinfo, a) == sectors {
+			if fieldOf(x.Info(), a) == sectors || containerFieldOf(x, a) == sectors {
 				return true
 			}
 		}
 		return false
-	}) {
+	})[cu.Fn] {
 		r.ok(construct, posOf(p, cu.Decl), "freed before anything that can fail")
 	} else {
 		r.bad(c.Prop, construct, posOf(p, cu.Decl), "Close can return (e.g. with the hole source's error) without having handed the file's sectors back: they leak while the quota is released, so the pool runs out of space")
@@ -447,31 +536,40 @@ func c16CloseReleasesCount(c *Ctx) *RuleResult {
 		Doc: "storage is released exactly once, when the last reference disappears: VirtualClose of a pool-backed file releases references on every returning path, and the number released is computed from the share mask (its Count()), matching what opening with that mask acquired -- not a constant per branch"}
 	p := c.P
 	u := p.Unit(virtualPkg, "fileBackedFile.VirtualClose")
-	info := u.Info()
 	rel := p.LookupFunc(virtualPkg, "fileBackedFile.releaseReferencesLocked")
-	sig := u.Fn.Type().(*types.Signature)
-	mask := sig.Params().At(0)
-	sites := CallsTo([]*FuncUnit{u}, rel)
-	construct := constructOf(u, "references released")
-	okAll := len(sites) > 0
-	for _, cs := range sites {
-		call := cs.Node.(*ast.CallExpr)
-		fromMask := false
-		ast.Inspect(resolveLocalAlias(u, call.Args[0]), func(n ast.Node) bool {
-			if id, ok := n.(*ast.Ident); ok && info.Uses[id] == mask {
-				fromMask = true
-			}
-			return true
-		})
-		if !fromMask {
-			okAll = false
+	cands := []*FuncUnit{u}
+	for fn := range staticReach(p, []ast.Node{u.Decl.Body}, u.Info()) {
+		if hu := p.UnitOf(fn); hu != nil && fn.Pkg() == u.Fn.Pkg() && fn != rel {
+			cands = append(cands, hu)
 		}
 	}
-	g := NewFuncCFG(info, u.Decl.Body)
-	if okAll && !g.EveryPathPasses(func(n ast.Node) bool {
+	construct := constructOf(u, "references released")
+	nsites := 0
+	okAll := true
+	for _, x := range cands {
+		for _, cs := range CallsTo([]*FuncUnit{x}, rel) {
+			nsites++
+			call := cs.Node.(*ast.CallExpr)
+			fromMask := false
+			ast.Inspect(resolveLocalAlias(x, call.Args[0]), func(n ast.Node) bool {
+				if mc, ok := n.(*ast.CallExpr); ok {
+					if sel, ok := ast.Unparen(mc.Fun).(*ast.SelectorExpr); ok && sel.Sel.Name == "Count" {
+						if tv, ok := x.Info().Types[sel.X]; ok && namedIs(tv.Type, modPath+"/"+virtualPkg, "ShareMask") {
+							fromMask = true
+						}
+					}
+				}
+				return true
+			})
+			if !fromMask {
+				okAll = false
+			}
+		}
+	}
+	if nsites == 0 || !mustPass(cands, func(x *FuncUnit, n ast.Node) bool {
 		call, ok := n.(*ast.CallExpr)
-		return ok && calleeOf(info, call) == rel
-	}) {
+		return ok && calleeOf(x.Info(), call) == rel
+	})[u.Fn] {
 		okAll = false
 	}
 	if okAll {
@@ -488,33 +586,86 @@ func c17ShortReadIsError(c *Ctx) *RuleResult {
 		Doc: "storage errors surface as errors and files have the contents named by the digest: in the CAS file's VirtualRead, every path on which fewer bytes than requested were read (the `n != len(buf)` branch) returns a status other than StatusOK"}
 	p := c.P
 	u := p.Unit(virtualPkg, "blobAccessCASFile.VirtualRead")
-	info := u.Info()
+	cands := []*FuncUnit{u}
+	for fn := range staticReach(p, []ast.Node{u.Decl.Body}, u.Info()) {
+		if hu := p.UnitOf(fn); hu != nil && fn.Pkg() == u.Fn.Pkg() {
+			cands = append(cands, hu)
+		}
+	}
+	isOKRet := func(ret *ast.ReturnStmt) bool {
+		return len(ret.Results) > 0 && strings.HasSuffix(exprStr(ret.Results[len(ret.Results)-1]), "StatusOK")
+	}
+	noOK := func(stmts []ast.Stmt) bool {
+		res := true
+		for _, st := range stmts {
+			ast.Inspect(st, func(k ast.Node) bool {
+				if ret, ok := k.(*ast.ReturnStmt); ok && isOKRet(ret) {
+					res = false
+				}
+				return true
+			})
+		}
+		return res
+	}
 	n := 0
-	ast.Inspect(u.Decl.Body, func(m ast.Node) bool {
-		ifs, ok := m.(*ast.IfStmt)
-		if !ok {
-			return true
-		}
-		be, ok := ast.Unparen(ifs.Cond).(*ast.BinaryExpr)
-		if !ok || be.Op != token.NEQ || !(strings.HasPrefix(exprStr(be.Y), "len(") || strings.HasPrefix(exprStr(be.X), "len(")) {
-			return true
-		}
-		n++
-		construct := constructOf(u, "short read")
-		okB := terminates(info, ifs.Body.List)
-		ast.Inspect(ifs.Body, func(k ast.Node) bool {
-			if ret, ok := k.(*ast.ReturnStmt); ok && len(ret.Results) > 0 && strings.HasSuffix(exprStr(ret.Results[len(ret.Results)-1]), "StatusOK") {
-				okB = false
+	for _, x := range cands {
+		info := x.Info()
+		hasRead := false
+		ast.Inspect(x.Decl.Body, func(m ast.Node) bool {
+			if call, ok := m.(*ast.CallExpr); ok {
+				if sel, ok := ast.Unparen(call.Fun).(*ast.SelectorExpr); ok && sel.Sel.Name == "ReadAt" {
+					hasRead = true
+				}
 			}
 			return true
 		})
-		if okB {
-			r.ok(construct, posOf(p, ifs), "always an error")
-		} else {
-			r.bad(c.Prop, construct, posOf(p, ifs), "a read that was cut short by a storage error can be reported as a successful (shorter) read: the file appears truncated instead of the error surfacing")
+		if !hasRead {
+			continue
 		}
-		return true
-	})
+		ast.Inspect(x.Decl.Body, func(m ast.Node) bool {
+			blk, ok := m.(*ast.BlockStmt)
+			if !ok {
+				return true
+			}
+			for i, st := range blk.List {
+				ifs, ok := st.(*ast.IfStmt)
+				if !ok {
+					continue
+				}
+				be, ok := ast.Unparen(ifs.Cond).(*ast.BinaryExpr)
+				if !ok || (be.Op != token.NEQ && be.Op != token.EQL) || !(strings.HasPrefix(exprStr(be.Y), "len(") || strings.HasPrefix(exprStr(be.X), "len(")) {
+					continue
+				}
+				if _, isLit := ast.Unparen(be.Y).(*ast.BasicLit); isLit {
+					continue // len(buf) == 0 and the like
+				}
+				if _, isLit := ast.Unparen(be.X).(*ast.BasicLit); isLit {
+					continue
+				}
+				n++
+				construct := constructOf(x, "short read")
+				okB := false
+				if be.Op == token.NEQ {
+					okB = terminates(info, ifs.Body.List) && noOK(ifs.Body.List)
+				} else {
+					// `if n == len(p) { return OK }` followed by the short-read handling
+					rest := blk.List[i+1:]
+					if ifs.Else != nil {
+						if eb, ok := ifs.Else.(*ast.BlockStmt); ok {
+							rest = eb.List
+						}
+					}
+					okB = terminates(info, ifs.Body.List) && len(rest) > 0 && terminates(info, rest) && noOK(rest)
+				}
+				if okB {
+					r.ok(construct, posOf(p, ifs), "always an error")
+				} else {
+					r.bad(c.Prop, construct, posOf(p, ifs), "a read that was cut short by a storage error can be reported as a successful (shorter) read: the file appears truncated instead of the error surfacing")
+				}
+			}
+			return true
+		})
+	}
 	if n == 0 {
 		r.bad(c.Prop, constructOf(u, "short read"), posOf(p, u.Decl), "the number of bytes read is no longer compared with the number requested")
 	}
@@ -555,17 +706,33 @@ func c18DowngradeAndIdleOrder(c *Ctx) *RuleResult {
 			return true
 		})
 	}
-	ins := p.Unit(nfsPkg, "clientConfirmationState.insertIntoIdleList")
-	info := ins.Info()
+	// idle list: wherever an element's "next" link is set from the list head, it is set to the head
+	// itself (insertion before the sentinel = at the tail), never to the head's successor
 	next := p.LookupField(nfsPkg, "clientConfirmationState", "nextIdle")
 	head := p.LookupField(nfsPkg, "nfs40Program", "idleClientConfirmations")
-	recv := ins.Decl.Recv.List[0].Names[0].Name
-	for _, w := range FieldWrites([]*FuncUnit{ins}, next, false) {
-		if exprStr(ast.Unparen(w.Expr).(*ast.SelectorExpr).X) != recv || w.RHS == nil {
+	for _, w := range FieldWrites(units, next, false) {
+		if w.RHS == nil {
 			continue
 		}
-		construct := constructOf(ins, "linked at the tail")
-		ue, ok := ast.Unparen(w.RHS).(*ast.UnaryExpr)
+		u := w.Unit
+		info := u.Info()
+		// the element being linked: a plain variable (receiver / parameter), not <x>.previous.next
+		if _, isVar := ast.Unparen(ast.Unparen(w.Expr).(*ast.SelectorExpr).X).(*ast.Ident); !isVar {
+			continue
+		}
+		rhs := ast.Unparen(resolveLocalAlias(u, w.RHS))
+		mentionsHead := false
+		ast.Inspect(rhs, func(n ast.Node) bool {
+			if e, ok := n.(ast.Expr); ok && fieldOf(info, e) == head {
+				mentionsHead = true
+			}
+			return true
+		})
+		if !mentionsHead {
+			continue
+		}
+		construct := constructOf(u, "linked at the tail")
+		ue, ok := rhs.(*ast.UnaryExpr)
 		if ok && ue.Op == token.AND && fieldOf(info, ue.X) == head {
 			r.ok(construct, posOf(p, w.Node), "next = &sentinel")
 		} else {
@@ -708,6 +875,51 @@ func c07FreshHandleAccounted(c *Ctx) *RuleResult {
 		}
 		v := res.Violations[0]
 		r.bad(c.Prop, construct, p.Pos(v.Born.Pos), fmt.Sprintf("the handle obtained here is released/handed over %d times on the path to the %s: its use count never returns to zero and the statistics recorded through it are never written", v.Count, oblExitDesc(p, v)))
+	}
+	return r
+}
+
+// c08MayThinkExecuting: after any Synchronize the worker remembers that the scheduler may believe
+// it is executing.
+func c08MayThinkExecuting(c *Ctx) *RuleResult {
+	r := &RuleResult{Rule: "C08.may-think-executing", Floor: 1,
+		Doc: "on shutdown the worker keeps synchronizing until the scheduler cannot believe it is still executing: in BuildClient.Run no return is reachable from the Synchronize call without passing the 'scheduler may think we are executing' bookkeeping (the nil test of schedulerMayThinkExecutingUntil or the call that sets it) -- a reply that is dropped later (invalid timestamp, ...) may have carried an execute request just like a failed call"}
+	p := c.P
+	u := p.Unit(builderPkg, "BuildClient.Run")
+	info := u.Info()
+	fld := p.LookupField(builderPkg, "BuildClient", "schedulerMayThinkExecutingUntil")
+	touch := p.LookupFunc(builderPkg, "BuildClient.touchSchedulerMayThinkExecuting")
+	g := NewFuncCFG(info, u.Decl.Body)
+	n := 0
+	ast.Inspect(u.Decl.Body, func(m ast.Node) bool {
+		call, ok := m.(*ast.CallExpr)
+		if !ok {
+			return true
+		}
+		sel, ok := ast.Unparen(call.Fun).(*ast.SelectorExpr)
+		if !ok || sel.Sel.Name != "Synchronize" {
+			return true
+		}
+		n++
+		construct := constructOf(u, "bookkeeping after Synchronize")
+		reach, at := g.ReachableWithout(call, nil, func(k ast.Node) bool {
+			switch x := k.(type) {
+			case *ast.CallExpr:
+				return calleeOf(info, x) == touch
+			case *ast.BinaryExpr:
+				return (x.Op == token.EQL || x.Op == token.NEQ) && isNilIdent(x.Y) && fieldOf(info, x.X) == fld
+			}
+			return false
+		})
+		if reach {
+			r.bad(c.Prop, construct, posOf(p, at), "Run can return after a Synchronize call without recording that the scheduler may think the worker is executing: if that reply carried an execute request and shutdown begins, the worker announces it may terminate while the scheduler still believes the action is running")
+		} else {
+			r.ok(construct, posOf(p, call), "recorded on every path")
+		}
+		return true
+	})
+	if n == 0 {
+		panic(anchorError("BuildClient.Run: Synchronize call"))
 	}
 	return r
 }
